@@ -158,21 +158,26 @@ Definition place (primary : bool) (t : Z) (p : par) (b : body) : body :=
 (* a caption as the writer sees it: start, end (microseconds), class, text *)
 Record wcue := mkWcue { wc_start : Z; wc_end : Z; wc_text : str }.
 
-(* _recreate_p_tag over one language; last_time = None is modelled by 0 (the code tests its truthiness) *)
-Fixpoint write_lang (primary : bool) (cls : str) (caps : list wcue) (last_time : Z) (b : body) : body :=
+(* _recreate_p_tag over one language (after `fix: SAMI writer omitted the blank sync after a cue ending in
+   millisecond 0`: `if self.last_time is not None and time != self.last_time`) *)
+Definition blank_due (last_time : option Z) (time : Z) : bool :=
+  match last_time with Some l => negb (time =? l) | None => false end.
+Definition last_or0 (last_time : option Z) : Z := match last_time with Some l => l | None => 0 end.
+
+Fixpoint write_lang (primary : bool) (cls : str) (caps : list wcue) (last_time : option Z) (b : body) : body :=
   match caps with
   | [] => b
   | c :: t =>
       let time := wc_start c / 1000 in
-      let b1 := if negb (last_time =? 0) && negb (time =? last_time)
-                then place primary last_time (cls, nbsp_text) b else b in
-      write_lang primary cls t (wc_end c / 1000) (place primary time (cls, wc_text c) b1)
+      let b1 := if blank_due last_time time
+                then place primary (last_or0 last_time) (cls, nbsp_text) b else b in
+      write_lang primary cls t (Some (wc_end c / 1000)) (place primary time (cls, wc_text c) b1)
   end.
 
 Fixpoint write_langs (first : bool) (cs : list (str * list wcue)) (b : body) : body :=
   match cs with
   | [] => b
-  | (l, caps) :: t => write_langs false t (write_lang first l caps 0 b)
+  | (l, caps) :: t => write_langs false t (write_lang first l caps None b)
   end.
 Definition sami_write (cs : list (str * list wcue)) : body := write_langs true cs [].
 
